@@ -1,6 +1,7 @@
 package netty
 
 import (
+	"context"
 	"errors"
 
 	"github.com/go-netty/go-netty/internal/vrt"
@@ -22,6 +23,9 @@ func (a *zzAcceptor) Accept() (transport.Transport, error) {
 	defer func() { a.inAccept-- }()
 	select {
 	case t := <-a.conns:
+		if zt, ok := t.(*zzTransport); ok {
+			zt.accepted = true // from here on the connection is the framework's to close
+		}
 		return t, nil
 	case <-a.closedC:
 		return nil, zzErrAcceptorClosed
@@ -160,8 +164,8 @@ func ZZ_C13_Shutdown(scenario, queue int) {
 	}
 	served := 0
 	for _, t := range fac.transports {
-		// a transport that was offered but never accepted (acceptor closed first) was never turned into a channel
-		if t.reads == 0 && t.closes == 0 {
+		// a transport that was offered but never accepted (acceptor closed first) was never the framework's
+		if t.reads == 0 && t.closes == 0 && !t.accepted {
 			continue
 		}
 		served++
@@ -208,4 +212,23 @@ func ZZ_C13_Relisten(lateFirst int) {
 	vrt.Assert(cb1 == 1 && cb2 == 1, "c13-accept-loop-ends")
 	vrt.Assert(err1 != nil, "c13-accept-loop-ends-with-an-error")
 	vrt.Reach("c13-relisten-done")
+}
+
+// ZZ_C13_BufferedClose: "the transport is closed" means the connection underneath the repository's buffered transport
+// wrappers is closed - also when the connection is broken and an earlier write (or the flush inside Close) failed.
+// A channel over transport.NewTransport(conn, rsize, wsize) on a connection whose writes fail is written to and
+// then closed: the connection itself must have been closed exactly once.
+func ZZ_C13_BufferedClose(rsize, wsize, q int) {
+	conn := &zzConn{failWrite: true}
+	tr := transport.NewTransport(conn, rsize, wsize)
+	pl := NewPipeline()
+	pl.AddLast(&zzProbe{swallowEx: true})
+	ch := newChannelWith(context.Background(), pl, tr, AsyncExecutor(), 1, q, true).(*channel)
+	pl.(*pipeline).channel = ch
+	ch.Write1([]byte{1, 2, 3}) // stays in the write buffer or fails at once, depending on the sizes
+	vrt.Quiesce()
+	ch.Close(zzErrUserClose)
+	vrt.Quiesce()
+	vrt.Assert(conn.closes == 1, "c13-every-channel-transport-closed-exactly-once")
+	vrt.Reach("c13-buffered-close-done")
 }
